@@ -1,8 +1,8 @@
 (* Proofs about Model/KMedoids.v: whatever the distance function, the rayon chunking and the hash order are,
    create_kmedoids returns clusters in which every point is at least as close to its own medoid as to any other
-   cluster's medoid; when the medoid initialisation succeeds the clusters are a partition (as multisets) of the
-   points; the initialisation succeeds when k does not exceed the number of distinct points; the executable checker
-   decides the declarative contract. *)
+   cluster's medoid, and the clusters are a partition (as multisets) of the points — for every k since repair ba4acde
+   (the selection of medoids stops when no unused point is left; with k <= #distinct points it finds k medoids);
+   the hierarchical variant never panics (repair 8db29ea); the executable checker decides the declarative contract. *)
 From Coq Require Import Permutation.
 From VRP Require Import Base.Tac Model.Lkh Model.KMedoids Proofs.LkhP Proofs.DbscanP.
 Local Open Scope nat_scope.
@@ -146,8 +146,16 @@ Section KMP.
   Proof.
     induction fuel as [|f IH]; intros k data M M' HM H; cbn [more_medoids] in H; [inversion H; subst; exact HM|].
     destruct (length M <? k); [|inversion H; subst; exact HM].
-    destruct (next_medoid d chunks data M) as [m|]; [|discriminate].
+    destruct (next_medoid d chunks data M) as [m|]; [|inversion H; subst; exact HM].
     eapply IH; [|exact H]. destruct M; discriminate.
+  Qed.
+
+  (* since repair ba4acde the selection of medoids never gives up *)
+  Lemma more_medoids_total : forall fuel k data M, exists M', more_medoids d chunks fuel k data M = Some M'.
+  Proof.
+    induction fuel as [|f IH]; intros k data M; cbn [more_medoids]; [eexists; reflexivity|].
+    destruct (length M <? k); [|eexists; reflexivity].
+    destruct (next_medoid d chunks data M) as [m|]; [apply IH | eexists; reflexivity].
   Qed.
 
   Theorem create_kmedoids_nearest data k : km_nearest d (create_kmedoids d chunks ord data k).
@@ -156,14 +164,14 @@ Section KMP.
     destruct (initialize_medoids d chunks k (p0 :: data)); [apply assign_nearest | intros ? ? ? ? ? []].
   Qed.
 
-  Theorem create_kmedoids_partition data k M :
-    initialize_medoids d chunks k data = Some M -> km_partition data (create_kmedoids d chunks ord data k).
+  Theorem create_kmedoids_partition data k : km_partition data (create_kmedoids d chunks ord data k).
   Proof.
-    intros Hi. unfold create_kmedoids, calculate. destruct data as [|p0 data].
-    - cbn in Hi. discriminate.
-    - rewrite Hi. apply assign_partition. apply iterate_nonempty; [discriminate|].
-      unfold initialize_medoids in Hi. destruct (argmin _ (p0 :: data)) as [first|]; [|discriminate].
-      eapply more_medoids_nonempty; [|exact Hi]. discriminate.
+    unfold create_kmedoids, calculate. destruct data as [|p0 data]; [apply perm_nil|].
+    unfold initialize_medoids.
+    destruct (argmin (fun a => sumd d a (p0 :: data)) (p0 :: data)) as [first|] eqn:Ea; [|cbn in Ea; discriminate].
+    destruct (more_medoids_total k k (p0 :: data) [first]) as [M HM]. rewrite HM.
+    apply assign_partition. apply iterate_nonempty; [discriminate|].
+    eapply more_medoids_nonempty; [|exact HM]. discriminate.
   Qed.
 End KMP.
 
@@ -189,7 +197,8 @@ Proof.
   - split; [destruct (nearest_ok (dmat dm) m); discriminate|]. intros [H _]. apply permb_iff in H. congruence.
 Qed.
 
-(* ------------------------------------------------------------------ the initialisation succeeds when k <= #distinct points *)
+(* ------------------------------------------------------------------ a fresh point is found while k <= #distinct points
+   (no longer needed for the contract since repair ba4acde; kept: next_medoid only returns unused points of the data) *)
 Section Init.
   Variable d : nat -> nat -> Z.
   Variable chunks : list nat -> list (list nat).
@@ -309,15 +318,12 @@ Section Init.
   Qed.
 End Init.
 
-(* the full k-medoids contract *)
+(* the full k-medoids contract (no hypothesis on k, on the chunking or on the data since repair ba4acde) *)
 Theorem create_kmedoids_contract d chunks ord data k :
-  (forall l, Permutation (ord l) l) -> concat (chunks data) = data ->
-  data <> [] -> k <= length (nodup Nat.eq_dec data) ->
+  (forall l, Permutation (ord l) l) ->
   km_partition data (create_kmedoids d chunks ord data k) /\ km_nearest d (create_kmedoids d chunks ord data k).
 Proof.
-  intros Hord Hch Hd Hk. split; [|apply create_kmedoids_nearest].
-  destruct (initialize_medoids_some d chunks data Hch k Hd Hk) as [M HM].
-  eapply create_kmedoids_partition; eauto.
+  intros Hord. split; [apply create_kmedoids_partition; exact Hord | apply create_kmedoids_nearest].
 Qed.
 
 Lemma halves_concat l : concat (halves l) = l.
@@ -326,18 +332,64 @@ Proof.
   cbn [concat]. rewrite app_nil_r. apply firstn_skipn.
 Qed.
 
-(* ------------------------------------------------------------------ witnesses of the two findings, for every distance / hash order *)
-Lemma kmedoids_k_exceeds d ord p :
-  create_kmedoids d halves ord [p] 2 = [] /\ ~ Permutation (flat_map snd (create_kmedoids d halves ord [p] 2)) [p].
+(* ------------------------------------------------------------------ the two repaired findings: witnesses about the pre-fix
+   functions (for every distance / hash order), and what the repaired functions do on the same inputs *)
+Lemma kmedoids_k_exceeds_prefix d ord p :
+  create_kmedoids_prefix d halves ord [p] 2 = [] /\ ~ Permutation (flat_map snd (create_kmedoids_prefix d halves ord [p] 2)) [p].
 Proof.
-  assert (E : create_kmedoids d halves ord [p] 2 = []).
+  assert (E : create_kmedoids_prefix d halves ord [p] 2 = []).
   { assert (N : next_medoid d halves [p] [p] = None).
     { unfold next_medoid, nm_fold, kmem. cbn [halves map fold_left existsb]. rewrite Nat.eqb_refl. reflexivity. }
-    unfold create_kmedoids, calculate, initialize_medoids.
-    cbn [argmin min_by more_medoids length Nat.ltb Nat.leb]. rewrite N. reflexivity. }
+    unfold create_kmedoids_prefix.
+    cbn [argmin min_by more_medoids_prefix length Nat.ltb Nat.leb]. rewrite N. reflexivity. }
   split; [exact E|]. rewrite E. cbn. intros H. apply Permutation_nil in H. discriminate.
 Qed.
 
-Lemma hkmedoids_single_point_panics d chunks ord p n :
-  create_hierarchical_kmedoids d chunks ord [p] (S n) = HPanic.
+Lemma hkmedoids_single_point_prefix_panics d chunks ord p n :
+  create_hierarchical_kmedoids_prefix d chunks ord [p] (S n) = HPanic.
 Proof. reflexivity. Qed.
+
+(* repaired: a single point gives the empty hierarchy, like every input without a cluster of more than two points *)
+Lemma hkmedoids_single_point d chunks ord p n : create_hierarchical_kmedoids d chunks ord [p] n = HOk [].
+Proof. destruct n; reflexivity. Qed.
+
+(* repaired: expect("should be set") is unreachable — every cluster handed to a tier has a medoid or at least one point *)
+Section NoPanic.
+  Variable d : nat -> nat -> Z.
+  Variable chunks : list nat -> list (list nat).
+  Variable ord : list nat -> list nat.
+
+  Definition named (e : option nat * list nat) : Prop := fst e <> None.
+  Definition good (e : option nat * list nat) : Prop := fst e <> None \/ snd e <> [].
+
+  Lemma tier_step_ok : forall cur tier next, Forall good cur -> Forall named next ->
+    exists tier' next', tier_step d chunks ord cur tier next = Some (tier', next') /\ Forall named next'.
+  Proof.
+    induction cur as [|[medoid cdata] r IH]; intros tier next Hc Hn; cbn [tier_step].
+    - exists tier, next. split; [reflexivity | exact Hn].
+    - inversion Hc as [|e l Hg Hr]; subst. destruct (length cdata <? 2).
+      + assert (exists m, match medoid with Some m => Some m | None => hd_error cdata end = Some m) as [m Hm].
+        { destruct medoid as [m|]; [exists m; reflexivity|]. destruct Hg as [Hg | Hg]; [cbn in Hg; congruence|].
+          cbn [snd] in Hg. destruct cdata as [|x cd]; [congruence|]. exists x. reflexivity. }
+        rewrite Hm. apply IH; [exact Hr|]. apply Forall_app. split; [exact Hn|].
+        constructor; [|constructor]. unfold named. cbn [fst]. discriminate.
+      + apply IH; [exact Hr|]. apply Forall_app. split; [exact Hn|].
+        apply Forall_forall. intros e He. apply in_map_iff in He. destruct He as [kc [<- _]].
+        unfold named. cbn [fst]. discriminate.
+  Qed.
+
+  Lemma htiers_no_panic : forall n cur acc, Forall good cur -> htiers d chunks ord n cur acc <> HPanic.
+  Proof.
+    induction n as [|n IH]; intros cur acc Hc; cbn [htiers]; [discriminate|].
+    destruct (tier_step_ok cur [] [] Hc (Forall_nil _)) as [tier [next [E Hn]]]. rewrite E.
+    destruct tier as [|kc tier]; [discriminate|].
+    destruct (existsb _ _); [|discriminate].
+    apply IH. eapply Forall_impl; [|exact Hn]. intros e He. left. exact He.
+  Qed.
+
+  Theorem hkmedoids_no_panic data tiers : create_hierarchical_kmedoids d chunks ord data tiers <> HPanic.
+  Proof.
+    unfold create_hierarchical_kmedoids. destruct data as [|p0 data]; [discriminate|].
+    apply htiers_no_panic. constructor; [|constructor]. right. cbn [snd]. discriminate.
+  Qed.
+End NoPanic.
